@@ -82,9 +82,18 @@ type Op struct {
 	// Sync: what the runtime reports
 	Pods []string          `json:"pods_list,omitempty"`
 	Ctrs map[string]string `json:"ctrs,omitempty"` // id -> state (created|running|stopped...)
+	// Sync: pods and containers the runtime has that the environment has not mentioned before
+	NewPods map[string]PodSpec `json:"newpods,omitempty"`
+	NewCtrs map[string]NewCtr  `json:"newctrs,omitempty"`
 	// Reconfigure
 	Config json.RawMessage `json:"config,omitempty"`
 	Tag    string          `json:"tag,omitempty"` // free-form label carried into the trace
+}
+
+// NewCtr is a container that first appears in a Synchronize list.
+type NewCtr struct {
+	Pod string  `json:"pod"`
+	Ctr CtrSpec `json:"ctr"`
 }
 
 // History is a world plus requests.
@@ -639,6 +648,18 @@ func (w *World) exec(o Op) (r reply) {
 	case "Remove":
 		r.err = h.RemoveContainer(ctx, pod(), ctrOf())
 	case "Sync":
+		for id, ps := range o.NewPods {
+			if _, ok := w.pods[id]; !ok {
+				w.pods[id] = &podRec{spec: ps, nri: w.mkPod(id, ps)}
+			}
+		}
+		for id, nc := range o.NewCtrs {
+			if _, ok := w.ctrs[id]; !ok {
+				c := &ctrRec{pod: nc.Pod, spec: nc.Ctr}
+				c.nri = w.mkCtr(id, nc.Pod, nc.Ctr, api.ContainerState_CONTAINER_RUNNING)
+				w.ctrs[id] = c
+			}
+		}
 		pods := []*api.PodSandbox{}
 		for _, id := range o.Pods {
 			if p, ok := w.pods[id]; ok {
@@ -694,6 +715,50 @@ func (w *World) exec(o Op) (r reply) {
 	return r
 }
 
+// applyTold folds what the plugin told the runtime into the environment's container objects, so that a later
+// Synchronize list carries the resources the runtime really enforces (empty string / nil = not set).
+func (w *World) applyTold(id string, r *api.LinuxResources) {
+	c, ok := w.ctrs[id]
+	if !ok || r == nil || c.nri.Linux == nil {
+		return
+	}
+	if c.nri.Linux.Resources == nil {
+		c.nri.Linux.Resources = &api.LinuxResources{}
+	}
+	dst := c.nri.Linux.Resources
+	if cpu := r.GetCpu(); cpu != nil {
+		if dst.Cpu == nil {
+			dst.Cpu = &api.LinuxCPU{}
+		}
+		if cpu.GetCpus() != "" {
+			dst.Cpu.Cpus = cpu.GetCpus()
+		}
+		if cpu.GetMems() != "" {
+			dst.Cpu.Mems = cpu.GetMems()
+		}
+		if cpu.GetShares() != nil {
+			dst.Cpu.Shares = api.UInt64(cpu.GetShares().GetValue())
+		}
+		if cpu.GetQuota() != nil {
+			dst.Cpu.Quota = api.Int64(cpu.GetQuota().GetValue())
+		}
+		if cpu.GetPeriod() != nil {
+			dst.Cpu.Period = api.UInt64(cpu.GetPeriod().GetValue())
+		}
+	}
+	if mem := r.GetMemory(); mem != nil {
+		if dst.Memory == nil {
+			dst.Memory = &api.LinuxMemory{}
+		}
+		if mem.GetLimit() != nil {
+			dst.Memory.Limit = api.Int64(mem.GetLimit().GetValue())
+		}
+		if mem.GetSwap() != nil {
+			dst.Memory.Swap = api.Int64(mem.GetSwap().GetValue())
+		}
+	}
+}
+
 // Step executes one request under a watchdog and returns the trace line.
 func (w *World) Step(o Op, hidx, k int) (tr.M, error) {
 	line := tr.M{"ev": o.Op, "h": hidx, "k": k}
@@ -721,6 +786,7 @@ func (w *World) Step(o Op, hidx, k int) (tr.M, error) {
 	}
 	if o.Op == "Reconfigure" {
 		line["config"] = o.Config
+		line["same"] = sameJSON(o.Config, w.curCfg)
 	}
 	var r reply
 	done := make(chan struct{})
@@ -737,10 +803,29 @@ func (w *World) Step(o Op, hidx, k int) (tr.M, error) {
 	line["err"] = r.err != nil
 	if r.err != nil {
 		line["msg"] = r.err.Error()
+		if o.Op == "Reconfigure" {
+			// where the update was rejected: by validation of the configuration, or later while applying it
+			kind := "apply"
+			for _, pat := range []string{"invalid configuration", "failed to parse", "invalid ", "can't handle", "unknown ", "not a subset", "is not"} {
+				if strings.Contains(r.err.Error(), pat) {
+					kind = "validation"
+					break
+				}
+			}
+			line["rejkind"] = kind
+		}
 	}
 	line["panic"] = r.panicv != nil
 	if r.panicv != nil {
 		line["panicmsg"] = fmt.Sprint(r.panicv)
+	}
+	if r.err == nil && r.panicv == nil {
+		if o.Op == "Create" && r.adj != nil {
+			w.applyTold(o.C, r.adj.GetLinux().GetResources())
+		}
+		for _, u := range r.upd {
+			w.applyTold(u.GetContainerId(), u.GetLinux().GetResources())
+		}
 	}
 	line["adj"] = adjView(r.adj)
 	line["hasadj"] = r.adj != nil
@@ -749,6 +834,9 @@ func (w *World) Step(o Op, hidx, k int) (tr.M, error) {
 	if w.H != nil {
 		for _, batch := range w.H.TakePushed() {
 			pushed = append(pushed, updView(batch))
+			for _, u := range batch {
+				w.applyTold(u.GetContainerId(), u.GetLinux().GetResources())
+			}
 		}
 	}
 	line["pushed"] = pushed
@@ -782,6 +870,16 @@ func (w *World) topo() []tr.M {
 			"isolated": iso.Contains(id)})
 	}
 	return out
+}
+
+func sameJSON(a, b json.RawMessage) bool {
+	var x, y interface{}
+	if json.Unmarshal(a, &x) != nil || json.Unmarshal(b, &y) != nil {
+		return false
+	}
+	ca, _ := json.Marshal(x)
+	cb, _ := json.Marshal(y)
+	return string(ca) == string(cb)
 }
 
 // ResetLine is the first line of a history in the trace.
